@@ -93,6 +93,7 @@ type Target struct {
 	proxyHandler http.Handler
 
 	state        TargetState
+	resumeState  TargetState
 	inflight     inflightMap
 	inflightLock sync.Mutex
 
@@ -175,11 +176,10 @@ func (t *Target) SendRequest(w http.ResponseWriter, req *http.Request) {
 }
 
 func (t *Target) Drain(timeout time.Duration) {
-	originalState := t.updateState(TargetStateDraining)
-	if originalState == TargetStateDraining {
+	if !t.beginDraining() {
 		return
 	}
-	defer t.updateState(originalState)
+	defer t.endDraining()
 	verifPoint("target.drain.begin", t.Target())
 
 	deadline := time.After(timeout)
@@ -241,29 +241,37 @@ func (t *Target) WaitUntilHealthy(timeout time.Duration) bool {
 
 func (t *Target) HealthCheckCompleted(success bool) {
 	var previousState, newState TargetState
-	becameHealthy := false
+	becameHealthy, draining := false, false
 
 	t.withInflightLock(func() {
-		previousState = t.state
+		// While the target is draining, health check results are recorded
+		// against the state it will return to when the drain ends, so that
+		// they neither end the drain early nor get lost.
+		state := &t.state
+		if t.state == TargetStateDraining {
+			state = &t.resumeState
+			draining = true
+		}
+		previousState = *state
 
 		switch success {
 		case true:
-			becameHealthy = t.state == TargetStateAdding
-			t.state = TargetStateHealthy
+			becameHealthy = *state == TargetStateAdding
+			*state = TargetStateHealthy
 		case false:
-			switch t.state {
+			switch *state {
 			case TargetStateHealthy:
-				t.state = TargetStateUnhealthy
+				*state = TargetStateUnhealthy
 			}
 		}
-		newState = t.state
+		newState = *state
 	})
 	verifPoint("target.health.recorded", t.Target(), success)
 
 	if newState != previousState {
 		slog.Info("Target health updated", "target", t.Target(), "state", newState.String(), "was", previousState.String())
 
-		if t.stateConsumer != nil {
+		if !draining && t.stateConsumer != nil {
 			t.stateConsumer.TargetStateChanged(t)
 		}
 	}
@@ -403,6 +411,31 @@ func (t *Target) updateState(state TargetState) TargetState {
 	t.state = state
 
 	return originalState
+}
+
+func (t *Target) beginDraining() bool {
+	t.inflightLock.Lock()
+	defer t.inflightLock.Unlock()
+
+	if t.state == TargetStateDraining {
+		return false
+	}
+
+	t.resumeState = t.state
+	t.state = TargetStateDraining
+	return true
+}
+
+func (t *Target) endDraining() {
+	t.withInflightLock(func() {
+		t.state = t.resumeState
+	})
+
+	// The state the target returns to may differ from the one it had when the
+	// drain began, and other targets may have changed state meanwhile.
+	if t.stateConsumer != nil {
+		t.stateConsumer.TargetStateChanged(t)
+	}
 }
 
 func (t *Target) getInflightRequest(req *http.Request) *inflightRequest {
